@@ -8,7 +8,8 @@
 (* The determinant is the Laplace expansion along the first row, the       *)
 (* adjugate the transposed cofactor matrix, so that for a UNIMODULAR       *)
 (* matrix (det = 1 or -1) the inverse is the integer matrix det * adj.     *)
-(* Intended sizes: <= 4 routinely, <= 6 occasionally (cost n!).            *)
+(* Laplace costs n!: used as the DEFINITION; the working inverse is the    *)
+(* fraction-free Gauss-Jordan elimination at the end of the module.        *)
 (***************************************************************************)
 EXTENDS Integers, Sequences, TLC
 
@@ -80,7 +81,39 @@ DetTo(A, j) == IF j = 0 THEN 0
 Cofactor(A, i, j) == IF Len(A) = 1 THEN 1 ELSE Sign(i + j) * Det(Minor(A, i, j))
 Adj(A) == Mk(Len(A), Len(A), LAMBDA r, c : Cofactor(A, c, r))
 
-IsUnimodular(A) == Det(A) \in {1, -1}
-\* inverse of a unimodular matrix: (1/det) adj = det * adj since det = 1 or -1
-InvUnimod(A) == MScale(Det(A), Adj(A))
+\* ---- fraction-free Gauss-Jordan (Bareiss): the inverse in O(n^3) -------
+(* [A | I] is reduced with the exact integer update                        *)
+(*    M[i][j] <- (p M[i][j] - M[i][k] M[k][j]) / prev     (i # k)          *)
+(* where p is the pivot of step k and prev the pivot of step k-1 (every    *)
+(* entry is a minor of [A | I], the division is exact).  At the end the    *)
+(* left half is d I with d = +-det A and the right half R = d A^-1.        *)
+(* Rows are swapped when a pivot is zero; d = 0 reports a singular matrix. *)
+(* The Laplace determinant and adjugate above remain the definitions;      *)
+(* GJSound states the agreement (checked by TLC where it is used).         *)
+SwapRows(M, a, b) == IF a = b THEN M
+                     ELSE TLCEval([i \in 1..Len(M) |-> IF i = a THEN M[b] ELSE IF i = b THEN M[a] ELSE M[i]])
+RECURSIVE GJ(_, _, _, _)
+GJ(M, k, prev, n) ==
+  IF k > n THEN [d |-> prev, m |-> M]
+  ELSE LET cand == {r \in k..n : M[r][k] # 0}
+       IN  IF cand = {} THEN [d |-> 0, m |-> M]
+           ELSE LET r0 == CHOOSE r \in cand : \A q \in cand : r <= q
+                    Ms == SwapRows(M, k, r0)
+                    p  == Ms[k][k]
+                    Mn == Mk(n, 2 * n, LAMBDA i, j :
+                             IF i = k THEN Ms[k][j]
+                             ELSE (p * Ms[i][j] - Ms[i][k] * Ms[k][j]) \div prev)
+                IN  GJ(Mn, k + 1, p, n)
+\* [d |-> +-det A (0 if singular), r |-> d A^-1]
+GJInv(A) == LET n == Len(A)
+                g == GJ(HCat(A, Ident(n)), 1, 1, n)
+            IN  [d |-> g.d, r |-> SubMat(g.m, 0, n, n, n)]
+
+IsUnimodular(A) == GJInv(A).d \in {1, -1}
+\* inverse of a unimodular matrix: R / d = d R since d = 1 or -1
+InvUnimod(A) == LET g == GJInv(A) IN MScale(g.d, g.r)
+\* agreement with the definitions by cofactors
+GJSound(A) == LET g == GJInv(A)
+              IN  /\ g.d \in {Det(A), 0 - Det(A)}
+                  /\ (g.d # 0 => MScale(Det(A), g.r) = MScale(g.d, Adj(A)))     \* r / d = adj / det
 =============================================================================
